@@ -5,9 +5,9 @@
 package c02
 
 import (
-	"encoding/json"
 	"fmt"
 	"sort"
+	"strings"
 	"time"
 
 	"verifh/e2e"
@@ -29,8 +29,22 @@ func keyName(v int64) string {
 	return fmt.Sprintf("chat-%d", v) // no such instance
 }
 
-func routeAndPayload(r hx.T, tag int64) (string, []byte) {
-	good, _ := json.Marshal(map[string]any{"T": tag})
+// Go names of the harness methods (registered lower-cased); index = MMisspelt's base
+var baseMethods = []string{"Echo", "Fail", "Boom", "Never", "Note", "Unenc", "Zero", "EchoLater"}
+
+// JSON-mode method -> protobuf-mode method serving the same behaviour class
+var protoMethod = map[string]string{"echo": "pecho", "fail": "pfail", "boom": "pboom", "never": "pnever", "note": "pnote",
+	"unenc": "punenc", "encpanic": "punenc", "echolater": "pecholater", "unenclater": "punenclater",
+	"encpaniclater": "punenclater", "zero": "pzero", "setkey": "psetkey", "big": "pbig", "nosuch": "nosuch"}
+
+func routeAndPayload(r hx.T, tag int64, proto bool) (string, []byte) {
+	good := e2e.EncodeArg(proto, map[string]any{"T": tag})
+	name := func(m string) string { // registered method name for the serializer in use
+		if proto {
+			return protoMethod[m]
+		}
+		return m
+	}
 	switch r.Name {
 	case "RMalformed":
 		switch r.Int(0) {
@@ -43,9 +57,9 @@ func routeAndPayload(r hx.T, tag int64) (string, []byte) {
 		case 3:
 			return "chat.h", good
 		case 4:
-			return "gate.h.echo.x", good
+			return "gate.h." + name("echo") + ".x", good
 		}
-		return "chat.h.echo.x.y", good
+		return "chat.h." + name("echo") + ".x.y", good
 	case "RT":
 		ty, ok := typeNames[r.Int(0)]
 		if !ok {
@@ -54,34 +68,52 @@ func routeAndPayload(r hx.T, tag int64) (string, []byte) {
 		m := hx.AsTerm(r.Args[1])
 		switch m.Name {
 		case "MSetKey":
-			pl, _ := json.Marshal(map[string]any{"T": tag, "Key": keyName(m.Int(0))})
-			return ty + ".h.setkey", pl
+			return ty + ".h." + name("setkey"), e2e.EncodeArg(proto, map[string]any{"T": tag, "Key": keyName(m.Int(0))})
 		case "MEcho":
-			return ty + ".h.echo", good
+			return ty + ".h." + name("echo"), good
 		case "MFail":
-			return ty + ".h.fail", good
+			return ty + ".h." + name("fail"), good
 		case "MBoom":
-			return ty + ".h.boom", good
+			return ty + ".h." + name("boom"), good
 		case "MNever":
-			return ty + ".h.never", good
+			return ty + ".h." + name("never"), good
 		case "MNote":
-			return ty + ".h.note", good
+			return ty + ".h." + name("note"), good
 		case "MNoMethod":
 			return ty + ".h.nosuch", good
 		case "MNoGroup":
-			return ty + ".g.echo", good
+			return ty + ".g." + name("echo"), good
 		case "MUnenc":
-			return ty + ".h.unenc", good
+			return ty + ".h." + name("unenc"), good
 		case "MEncPanic":
-			return ty + ".h.encpanic", good
+			return ty + ".h." + name("encpanic"), good
 		case "MEchoLater":
-			return ty + ".h.echolater", good
+			return ty + ".h." + name("echolater"), good
 		case "MUnencLater":
-			return ty + ".h.unenclater", good
+			return ty + ".h." + name("unenclater"), good
 		case "MEncPanicLater":
-			return ty + ".h.encpaniclater", good
+			return ty + ".h." + name("encpaniclater"), good
+		case "MZero":
+			return ty + ".h." + name("zero"), good
 		case "MBadPayload":
+			if proto {
+				return ty + ".h.pecho", []byte{0x0a, 0x05, 'a'} // length 5 announced, 1 byte there
+			}
 			return ty + ".h.echo", []byte(`{"T":`)
+		case "MMisspelt":
+			// a spelling of an existing method's route that is not registered as written
+			base := baseMethods[int(((m.Int(0)%int64(len(baseMethods)))+int64(len(baseMethods)))%int64(len(baseMethods)))]
+			goName := base
+			if proto {
+				goName = "P" + base
+			}
+			switch ((m.Int(1) % 3) + 3) % 3 {
+			case 1:
+				return ty + ".h." + goName, good // the Go method name
+			case 2:
+				return ty + ".h." + strings.ToUpper(goName), good
+			}
+			return ty + ".H." + strings.ToLower(goName), good // capitalised group
 		}
 	}
 	panic("c02: bad route term " + r.Name)
@@ -125,12 +157,11 @@ func Wrap(ops []hx.T) []hx.T {
 	return out
 }
 
-func payloadClass(ev e2e.Event) any {
-	if len(ev.Data) == 0 {
-		return "PNone"
+func payloadClass(ev e2e.Event, proto bool) any {
+	if len(ev.Data) == 0 || (!proto && string(ev.Data) == "{}") {
+		return "PNone" // no content (an all-default result is "{}" under JSON, zero bytes under protobuf)
 	}
-	var r e2e.Reply
-	if json.Unmarshal(ev.Data, &r) == nil && r.Kind == "echo" && e2e.InstOf(r.Svc) >= 0 {
+	if r, ok := e2e.DecodeReply(proto, ev.Data); ok && r.Kind == "echo" && e2e.InstOf(r.Svc) >= 0 {
 		return hx.C("PReply", e2e.InstOf(r.Svc), r.T)
 	}
 	return "POther"
@@ -169,6 +200,18 @@ func Exec(n *e2e.Node, ops []hx.T) (obs any, nontrivial bool, xtags []string, er
 			err = e
 		}
 	}()
+	// the client serializer is a configuration of the whole case
+	proto := false
+	for _, o := range ops {
+		if unwrap(o).Name == "OProto" {
+			proto = true
+		}
+	}
+	if proto {
+		n.SetProto(true)
+		xtags = append(xtags, "serializer-proto")
+		defer n.SetProto(false)
+	}
 	var lastAbs uint32
 	for _, o := range ops {
 		o = unwrap(o)
@@ -236,7 +279,10 @@ func Exec(n *e2e.Node, ops []hx.T) (obs any, nontrivial bool, xtags []string, er
 				if i >= nl {
 					route = "room.h.big"
 				}
-				pl, _ := json.Marshal(map[string]any{"T": tag0 + i, "Pad": pad})
+				if proto {
+					route = strings.Replace(route, ".big", ".pbig", 1)
+				}
+				pl := e2e.EncodeArg(proto, map[string]any{"T": tag0 + i, "Pad": pad})
 				if e := c.cl.Request(uint64(mid0+i), route, pl); e != nil {
 					return nil, false, nil, e
 				}
@@ -259,7 +305,7 @@ func Exec(n *e2e.Node, ops []hx.T) (obs any, nontrivial bool, xtags []string, er
 			if c == nil || c.closed {
 				continue
 			}
-			rt, pl := routeAndPayload(o.Term(2), o.Int(3))
+			rt, pl := routeAndPayload(o.Term(2), o.Int(3), proto)
 			if e := c.cl.Request(hx.U64(o.Args[1]), rt, pl); e != nil {
 				return nil, false, nil, e
 			}
@@ -268,10 +314,11 @@ func Exec(n *e2e.Node, ops []hx.T) (obs any, nontrivial bool, xtags []string, er
 			if c == nil || c.closed {
 				continue
 			}
-			rt, pl := routeAndPayload(o.Term(1), o.Int(2))
+			rt, pl := routeAndPayload(o.Term(1), o.Int(2), proto)
 			if e := c.cl.Notify(rt, pl); e != nil {
 				return nil, false, nil, e
 			}
+		case "OProto":
 		case "OHandshake":
 			c := conns[o.Int(0)]
 			if c == nil || c.closed || c.cl.NotReady {
@@ -374,7 +421,7 @@ func Exec(n *e2e.Node, ops []hx.T) (obs any, nontrivial bool, xtags []string, er
 			return string(a.Data) < string(b.Data)
 		})
 		for _, ev := range keep {
-			rs = append(rs, hx.C("Resp", ev.Mid, ev.Err, payloadClass(ev)))
+			rs = append(rs, hx.C("Resp", ev.Mid, ev.Err, payloadClass(ev, proto)))
 			nontrivial = true
 		}
 		perConn = append(perConn, hx.Pair{A: id, B: rs})
